@@ -30,6 +30,10 @@ type Churn struct {
 	// YieldPerMille (instrumented build only): probability, in 1/1000, with which every lock / unlock
 	// statement of the library yields the processor or sleeps 1-50 us (schedule perturbation)
 	YieldPerMille int `json:"yield_per_mille,omitempty"`
+	// Respawn: connections left open when the engine is stopped whose close handler brings a replacement
+	// connection in (AddConn from OnClose, i.e. while Stop runs): the replacement is a managed connection
+	// as well and Stop has to end it with one close notification
+	Respawn int `json:"respawn,omitempty"`
 }
 
 type churnRec struct {
@@ -57,7 +61,46 @@ func runChurn(c Churn) vlib.Result {
 		return r
 	}
 	g.OnOpen(func(nc *nbio.Conn) { atomic.AddInt32(&rec(nc).opens, 1) })
-	g.OnClose(func(nc *nbio.Conn, err error) { atomic.AddInt32(&rec(nc).closes, 1) })
+	var respawnPeers []net.Conn
+	var respawned int32
+	defer func() {
+		mu.Lock()
+		for _, p := range respawnPeers {
+			_ = p.Close()
+		}
+		mu.Unlock()
+	}()
+	addPair := func(mark bool) error {
+		s, peer, err := vlib.StreamPair(c.Transport, 0, 0)
+		if err != nil {
+			return err
+		}
+		nbc, err := nbio.NBConn(s)
+		if err != nil {
+			peer.Close()
+			return err
+		}
+		mu.Lock()
+		respawnPeers = append(respawnPeers, peer)
+		mu.Unlock()
+		rec(nbc).added = true
+		if mark {
+			nbc.SetSession("respawn")
+		}
+		if _, err := g.AddConn(nbc); err != nil {
+			// refused (the engine is past the point of taking connections): not a managed connection
+			rec(nbc).added = false
+		}
+		return nil
+	}
+	g.OnClose(func(nc *nbio.Conn, err error) {
+		atomic.AddInt32(&rec(nc).closes, 1)
+		if nc.Session() == "respawn" {
+			if addPair(false) == nil {
+				atomic.AddInt32(&respawned, 1)
+			}
+		}
+	})
 	g.OnData(func(nc *nbio.Conn, b []byte) { atomic.AddInt32(&rec(nc).data, int32(len(b))) })
 	if err := g.Start(); err != nil {
 		return vlib.Fail("harness: engine start: %v", err)
@@ -212,10 +255,27 @@ func runChurn(c Churn) vlib.Result {
 		res.Err = f
 		return res
 	}
+	for i := 0; i < c.Respawn; i++ {
+		if err := addPair(true); err != nil {
+			return vlib.Fail("harness: socket pair: %v", err)
+		}
+	}
 	stopped = true
 	if !vlib.StopEngine(g.Stop, 10*time.Second) {
-		res.Err = fmt.Errorf("Engine.Stop did not return within 10 s after the churn")
+		mu.Lock()
+		open := 0
+		for _, r := range recs {
+			if r.added && atomic.LoadInt32(&r.opens) == 1 && atomic.LoadInt32(&r.closes) == 0 {
+				open++
+			}
+		}
+		mu.Unlock()
+		res.Err = fmt.Errorf("Engine.Stop did not return within 10 s after the churn (%d connections were left open for it, %d replacements were added from close handlers while it ran, %d managed connections still have no close notification)", c.Respawn, atomic.LoadInt32(&respawned), open)
 		return res
+	}
+	if c.Respawn > 0 {
+		res.Classes = append(res.Classes, "connections added from close handlers while Stop ran")
+		res.NonTrivial = true
 	}
 	time.Sleep(20 * time.Millisecond)
 	if n := atomic.LoadInt64(&dialOK); n != 0 {
@@ -266,6 +326,7 @@ func genChurn(t *rapid.T) Churn {
 	if vlib.YieldAvailable {
 		c.YieldPerMille = rapid.SampledFrom([]int{0, 0, 20, 100, 300}).Draw(t, "yield")
 	}
+	c.Respawn = rapid.SampledFrom([]int{0, 0, 1, 3, 8}).Draw(t, "respawn")
 	return c
 }
 
